@@ -125,6 +125,7 @@ T_Session ==
   \/ IsEvent("sess.lookup") /\ \E c \in Conns : IncLookup(c, E.s, E.id, E.pkt)
   \/ IsEvent("sess.delete") /\ \E c \in Conns : (IF E.d = "in" THEN IncDelete(c, E.s, E.id) ELSE OutDelete(c, E.s, E.id))
   \/ IsEvent("sess.all") /\ \E c \in Conns : cl[c].sk = E.s /\ ResendList(c, E.list)
+  \/ IsEvent("sess.creset") /\ SessCounterReset(E.s)
 
 T_Settle ==
   /\ IsEvent("settle")
